@@ -439,7 +439,7 @@ def run_qp(qp, prog, args=None, bound_wrap=None):
 
 
 # ------------------------------------------------------------------------------------------------ source (autograph)
-def emit_source(prog, name="f", measurements="return qp.state()"):
+def emit_source(prog, name="f", measurements="return qp.state()", init_locals=True):
     nw = prog["n_wires"]
     lines = ["import pennylane as qp", "", f"def {name}(x, y, n):"]
     sub_id = [0]
@@ -483,7 +483,13 @@ def emit_source(prog, name="f", measurements="return qp.state()"):
                     out.append(f"{pad}qp.ctrl({fn}, control={s[2]!r}, control_values={s[3]!r})()")
         return out
 
-    lines += block(prog["stmts"], 1)
+    # AutoGraph requires every variable assigned inside a loop body (inner loop indices, while counters) to be initialised
+    # before that loop; in plain Python these initialisations are no-ops for the program's meaning.
+    body_lines = block(prog["stmts"], 1)
+    locals_ = sorted({v for v, t in prog["types"].items() if v not in ("x", "y", "n")}, key=lambda v: (v[0], int(v[1:])))
+    if init_locals:
+        lines += [f"    {v} = 0" for v in locals_]
+    lines += body_lines
     lines.append("    " + measurements)
     return "\n".join(lines) + "\n"
 
